@@ -5,6 +5,7 @@ from .. import pool as P
 INVS = ["PRInputsJustified", "PRInputsComplete", "ReadySound", "ReadyComplete", "AnnouncedInQuery",
         "AtMostOnce", "WatermarkDecided"]
 
+TWINS = {0: [((5, "Y5"), (2, "X2"))]}     # scenario index -> an equivocated second block of a FINALIZED slot
 QUICK = [
     (["S", "F", "K", "N", "F"], (4, 8)),
     (["NS", "NFS", "K", "K", "S"], (4, 8)),
@@ -16,14 +17,21 @@ QUICK = [
 
 def scenario_sets(ctx):
     if ctx.tier == "quick":
-        return [("q%d" % i, [P.chain_scenario(f, waits=w)]) for i, (f, w) in enumerate(QUICK)]
+        return [("q%d" % i, [P.chain_scenario(f, waits=w, twins=TWINS.get(i, ()))]) for i, (f, w) in enumerate(QUICK)]
     rnd = random.Random(ctx.seed)
-    out = [("q%d" % i, [P.chain_scenario(f, waits=w)]) for i, (f, w) in enumerate(QUICK)]
+    out = [("q%d" % i, [P.chain_scenario(f, waits=w, twins=TWINS.get(i, ()))]) for i, (f, w) in enumerate(QUICK)]
     pool = []
     for _ in range(24):
         k = rnd.choice([4, 5, 5, 6])
         f = [rnd.choice(P.FATES) for _ in range(k)]
-        pool.append(P.chain_scenario(f, waits=(4, 8)))
+        # every other scenario: an equivocated second block in a finalized slot, hanging off an older block
+        fin = [i + 1 for i, x in enumerate(f) if x in ("F", "S", "FS") and i >= 1]
+        tw = ()
+        if fin and rnd.random() < 0.5:
+            s = rnd.choice(fin)
+            ps = rnd.choice([t for t in range(0, s - 1)])
+            tw = [((s, f"Y{s}"), (ps, "G" if ps == 0 else f"X{ps}"))]
+        pool.append(P.chain_scenario(f, waits=(4, 8), twins=tw))
     for i in range(0, len(pool), 4):
         out.append(("r%d" % (i // 4), pool[i:i + 4]))
     return out
